@@ -1,13 +1,21 @@
-"""C14 -- protocol enums accept every integer and keep its value (engine A; generated enums via engine C).
+"""C14 -- protocol enums accept every integer and keep its value (engine B effect interpretation; generated enums via engine C).
 
-Rules on ProtocolEnumMeta.__call__ (a structural/effect analysis of one method):
-  R1  the member lookup is delegated to EnumType.__call__ inside a try whose handler catches ValueError
-  R2  the lookup call binds against the running interpreter's EnumType.__call__ signature and does not
-      occupy `names` when that would select the functional API
-  R3  the lookup result is returned unmodified (declared ordinal -> the declared member, same object)
-  R4  the fallback object is int.__new__(cls, value), named Unrecognized(<int(value)>), _value_ = value
-  R5  no member table of the enum is written; no result is cached across enum types
-  R6  a looked-up member is never tested by truthiness (ordinal 0 is falsy)
+ProtocolEnumMeta.__call__ is interpreted (helpers inlined through the call graph) over abstract objects:
+  cls     the enum class: reads of a member table give a table object, reads of a container defined on the metaclass
+          give a shared table, every store through it is an effect
+  value   an arbitrary integer; one boolean per path says whether it is a declared ordinal
+  super().__call__(value, ...)   the stdlib lookup: the declared member (one token, compared by identity) or ValueError;
+          with `names` given, the functional API (not part of the property)
+  int.__new__(c, v)              a fresh object that remembers c and v and records attribute stores
+Obligations on every path:
+  R1  an undeclared ordinal never raises
+  R2  every super().__call__ binds against the running interpreter's EnumType.__call__ signature and a lookup does
+      not occupy `names` when that would select the functional API
+  R3  a declared ordinal returns the declared member, the same object (so a member with ordinal 0, which is falsy,
+      must not be taken for missing: R6)
+  R4  an undeclared ordinal returns int.__new__(cls, value) named Unrecognized(<value>) with _value_ = value
+      (or the object cached for exactly that class and value)
+  R5  no member table of the enum is written; a table shared by all protocol enums is keyed by the class
   R7  the metaclass defines no __eq__/__hash__ and derives from EnumMeta/EnumType
 Not decided: EnumType.__call__ raising ValueError for unknown values / returning the singleton for known
 ones, and int equality/hash of the fallback object -- stdlib semantics, trusted.
@@ -15,8 +23,10 @@ ones, and int equality/hash of the fallback object -- stdlib semantics, trusted.
 import ast
 import os
 
+from .. import affine as B
+from ..affine import Aff
 from ..core import AnalysisError
-from ..index import walk_no_nested
+from ..numeval import FStr, FuncRef, ClassRef, Native, NumEval, PyRaise
 
 MOD = "eolib.protocol.protocol_enum_meta"
 CLS = "ProtocolEnumMeta"
@@ -40,24 +50,195 @@ def stdlib_enum_call_signature():
     raise AnalysisError("EnumType.__call__ not found in %s" % path)
 
 
-def is_super_call(n):
-    return (isinstance(n, ast.Call) and isinstance(n.func, ast.Attribute) and n.func.attr == "__call__"
-            and isinstance(n.func.value, ast.Call) and isinstance(n.func.value.func, ast.Name) and n.func.value.func.id == "super")
+# ------------------------------------------------------------------------------------------------ abstract objects
+class World:
+    def __init__(self, shared_names):
+        self.shared_names = shared_names
+        self.effects = []  # (kind, detail, lineno)
+        self.lookups = []  # (args, kwargs, lineno)
+        self.truth_tests = []
+        self.declared = None
+        self.value = None
+
+    def is_declared(self):
+        if self.declared is None:
+            self.declared = B.cur().choose("value is a declared ordinal")
+        return self.declared
+
+    def is_value(self, k):
+        return isinstance(k, Aff) and B.is_zero(k - self.value)
 
 
-def rooted_at(e, names):
-    """Is expression e an attribute/subscript chain rooted at one of `names`?"""
-    while isinstance(e, (ast.Attribute, ast.Subscript)):
-        e = e.value
-    return isinstance(e, ast.Name) and e.id in names
+class MemberTok:
+    """The declared member for `value` (exists only on paths where value is declared)."""
+
+    def __init__(self, w):
+        self.w = w
+
+    def truth(self, fr, node):
+        # the member's ordinal may be 0: its truth value is not known
+        r = B.cur().choose("declared member is truthy")
+        self.w.truth_tests.append((getattr(node, "lineno", 0), r))
+        return r
+
+    def __repr__(self):
+        return "<declared member>"
 
 
+class FunctionalTok:
+    def __repr__(self):
+        return "<result of the functional API>"
+
+
+class Fallback:
+    def __init__(self, w, c, v, lineno):
+        self.w, self.c, self.v, self.lineno = w, c, v, lineno
+        self.attrs = {}
+
+    def setattr(self, fr, attr, v, node):
+        self.attrs[attr] = v
+
+    def getattr(self, fr, attr, node):
+        if attr in self.attrs:
+            return self.attrs[attr]
+        raise AnalysisError("C14: attribute %s of the fallback object is read before it is set" % attr)
+
+    def truth(self, fr, node):
+        raise AnalysisError("C14: truth value of the fallback object (depends on the integer)")
+
+    def __repr__(self):
+        return "<int.__new__ object>"
+
+
+class CachedTok:
+    def __init__(self, table, key):
+        self.table, self.key = table, key
+
+    def truth(self, fr, node):
+        raise AnalysisError("C14: truth value of a cached object")
+
+    def __repr__(self):
+        return "<object cached in %s>" % self.table
+
+
+class EnumCls:
+    def __init__(self, w):
+        self.w = w
+        self.attrs = {}
+
+    def getattr(self, fr, attr, node):
+        if attr in self.attrs:
+            return self.attrs[attr]
+        if attr in MEMBER_TABLES:
+            return Table(self.w, self, "member", attr)
+        if attr in self.w.shared_names:
+            return Table(self.w, self, "shared", attr)
+        if attr in ("__name__", "__qualname__"):
+            from ..numeval import Opaque
+            return Opaque("class name")
+        raise AnalysisError("C14: ProtocolEnumMeta.__call__ reads cls.%s (not a member table, not defined on the metaclass)" % attr)
+
+    def setattr(self, fr, attr, v, node):
+        self.w.effects.append(("cls-attr-store", attr, getattr(node, "lineno", 0)))
+        self.attrs[attr] = v
+
+    def truth(self, fr, node):
+        return True
+
+    def __repr__(self):
+        return "<cls>"
+
+
+def _mentions(key, obj):
+    if key is obj:
+        return True
+    if isinstance(key, (tuple, list)):
+        return any(_mentions(k, obj) for k in key)
+    return False
+
+
+def _mentions_value(w, key):
+    if w.is_value(key):
+        return True
+    if isinstance(key, (tuple, list)):
+        return any(_mentions_value(w, k) for k in key)
+    return False
+
+
+class Table:
+    def __init__(self, w, owner, kind, name):
+        self.w, self.owner, self.kind, self.name = w, owner, kind, name
+        self.hits = {}
+
+    def __repr__(self):
+        return "<%s table %s>" % (self.kind, self.name)
+
+    def _hit(self, key, node):
+        if self.kind == "member":
+            if not self.w.is_value(key):
+                raise AnalysisError("C14: member table %s looked up with something other than the value" % self.name)
+            return self.w.is_declared()
+        k = repr(key)
+        if k not in self.hits:
+            self.hits[k] = B.cur().choose("%s already holds an entry for this key" % self.name)
+        return self.hits[k]
+
+    def _entry(self, key):
+        return MemberTok(self.w) if self.kind == "member" else CachedTok(self.name, key)
+
+    def _write(self, how, key, v, node):
+        ln = getattr(node, "lineno", 0)
+        if self.kind == "member":
+            self.w.effects.append(("member-table-write", "%s via %s" % (self.name, how), ln))
+        else:
+            self.w.effects.append(("shared-store", (self.name, how, key, v), ln))
+
+    def load_index(self, fr, k, node):
+        if self._hit(k, node):
+            return self._entry(k)
+        raise PyRaise("KeyError", node)
+
+    def store_index(self, fr, k, v, node):
+        self._write("item assignment", k, v, node)
+
+    def contains(self, fr, k, node):
+        return self._hit(k, node)
+
+    def truth(self, fr, node):
+        raise AnalysisError("C14: truth value of a table")
+
+    def getattr(self, fr, attr, node):
+        if attr == "get":
+            def get(ev, a, kw, n):
+                if self._hit(a[0], n):
+                    return self._entry(a[0])
+                return a[1] if len(a) > 1 else kw.get("default")
+            return Native(get, self.name + ".get")
+        if attr == "setdefault":
+            def setdefault(ev, a, kw, n):
+                d = a[1] if len(a) > 1 else None
+                self._write("setdefault", a[0], d, n)
+                if self._hit(a[0], n):
+                    return self._entry(a[0])
+                return d
+            return Native(setdefault, self.name + ".setdefault")
+        if attr in MUTATORS:
+            def mut(ev, a, kw, n):
+                self._write(attr, a[0] if a else None, a[1] if len(a) > 1 else None, n)
+                return None
+            return Native(mut, self.name + "." + attr)
+        raise AnalysisError("C14: %s.%s is not modelled" % (self.name, attr))
+
+
+# ------------------------------------------------------------------------------------------------ the check
 def run(rep, index):
     rep.level = "other"
-    rep.explanation = ("Structural and effect analysis of ProtocolEnumMeta.__call__ (rules R1-R7 in the module docstring), with the "
-                       "keyword binding checked against the EnumType.__call__ signature parsed from the running interpreter's "
-                       "enum.py. The behaviour of EnumType.__call__ itself and int equality/hash are stdlib semantics: trusted, "
-                       "not decided.")
+    rep.explanation = ("ProtocolEnumMeta.__call__ is interpreted over abstract objects (the enum class with its member tables and "
+                       "the metaclass's shared containers, an arbitrary integer that is or is not a declared ordinal, the stdlib "
+                       "lookup as 'declared member or ValueError', int.__new__ as a fresh recording object), helpers inlined; "
+                       "rules R1-R7 of the module docstring are read off every path; the keyword binding is checked against the "
+                       "EnumType.__call__ signature parsed from the running interpreter's enum.py. The behaviour of "
+                       "EnumType.__call__ itself and int equality/hash are stdlib semantics: trusted, not decided.")
     m, cls = index.klass(MOD + "." + CLS)
     fn = next(iter(index.methods(cls, "__call__")), None)
     if fn is None:
@@ -74,102 +255,7 @@ def run(rep, index):
     params = [a.arg for a in fn.args.posonlyargs + fn.args.args]
     if len(params) < 2:
         raise AnalysisError("__call__ signature changed: %r" % params)
-    cls_p, value_p = params[0], params[1]
-
-    # ---------------- the lookup call(s)
-    supers = [n for n in walk_no_nested(fn) if is_super_call(n)]
-    rep.count("super().__call__ sites", len(supers))
-    path, pos, kwonly, defaults, has_var = stdlib_enum_call_signature()
-    lookups = []
-    for call in supers:
-        kw = {k.arg: k.value for k in call.keywords}
-        passes_names = "names" in kw or len(call.args) >= 2
-        names_val = kw.get("names") if "names" in kw else (call.args[1] if len(call.args) >= 2 else None)
-        functional = passes_names and not (isinstance(names_val, ast.Constant) and names_val.value is None)
-        # R2 keyword binding
-        accepted = set(pos) | set(kwonly)
-        unknown = [k for k in kw if k is not None and k not in accepted]
-        rep.ob("C14.R2 call-binds-against-EnumType.__call__", "super().__call__ at line %d" % call.lineno, not unknown,
-               "keywords %s; %s accepts %s" % (sorted(k for k in kw if k), os.path.basename(path), sorted(accepted)), loc=index.loc(m, call))
-        if not functional:
-            lookups.append(call)
-            d = defaults.get("names")
-            sentinel = d is not None and not (isinstance(d, ast.Constant) and d.value is None)
-            rep.ob("C14.R2 lookup-does-not-occupy-names", "super().__call__ at line %d" % call.lineno, not (passes_names and sentinel),
-                   "passes names: %s; interpreter default for names: %s" % (passes_names, ast.unparse(d) if d is not None else "<required>"),
-                   loc=index.loc(m, call))
-            first = call.args[0] if call.args else kw.get("value")
-            rep.ob("C14.R1 lookup-uses-the-value", "super().__call__ at line %d" % call.lineno,
-                   isinstance(first, ast.Name) and first.id == value_p, "first argument: %s" % (ast.unparse(first) if first is not None else None),
-                   loc=index.loc(m, call))
-    direct = direct_table_lookups(fn, cls_p)
-    if not lookups and not direct:
-        rep.ob("C14.R1 lookup-delegated-and-guarded", CLS + ".__call__", False,
-               "no member lookup found (neither super().__call__(value, ...) nor a member-table lookup)", loc=loc)
-        return
-    rep.floor("super().__call__ sites", 1 if direct else 2)
-
-    # R1: each lookup is inside a try whose handler catches ValueError; R3: result returned unmodified
-    tries = [n for n in walk_no_nested(fn) if isinstance(n, ast.Try)]
-    handler_bodies = []
-    for call in lookups:
-        holder = None
-        for t in tries:
-            if any(call is x for st in t.body for x in ast.walk(st)):
-                holder = t
-        if holder is None:
-            rep.ob("C14.R1 lookup-delegated-and-guarded", "super().__call__ at line %d" % call.lineno, False,
-                   "the lookup is not inside a try: an unknown ordinal raises ValueError to the caller", loc=index.loc(m, call))
-            continue
-        caught = []
-        for h in holder.handlers:
-            if h.type is None:
-                caught.append("<bare>")
-            elif isinstance(h.type, ast.Tuple):
-                caught += [ast.unparse(x) for x in h.type.elts]
-            else:
-                caught.append(ast.unparse(h.type))
-        good = any(c in ("ValueError", "Exception", "BaseException", "<bare>") for c in caught)
-        rep.ob("C14.R1 lookup-delegated-and-guarded", "super().__call__ at line %d" % call.lineno, good,
-               "handlers catch %s; EnumType.__call__ signals an unknown value with ValueError" % caught, loc=index.loc(m, holder))
-        for h in holder.handlers:
-            handler_bodies.append(h.body)
-        # R3: `return <call>` or `x = <call> ... return x` with x not reassigned/mutated
-        ret_direct = any(isinstance(st, ast.Return) and st.value is call for st in ast.walk(holder))
-        via = None
-        for st in holder.body:
-            if isinstance(st, ast.Assign) and st.value is call and len(st.targets) == 1 and isinstance(st.targets[0], ast.Name):
-                via = st.targets[0].id
-        ok3 = ret_direct
-        if via is not None:
-            stores = [n for n in walk_no_nested(fn) if isinstance(n, ast.Name) and n.id == via and isinstance(n.ctx, ast.Store)]
-            attr_stores = [n for n in walk_no_nested(fn) if isinstance(n, ast.Attribute) and isinstance(n.ctx, ast.Store) and rooted_at(n, {via})]
-            rets = [n for n in walk_no_nested(fn) if isinstance(n, ast.Return) and isinstance(n.value, ast.Name) and n.value.id == via]
-            ok3 = len(stores) == 1 and not attr_stores and bool(rets)
-        rep.ob("C14.R3 declared-member-returned-unmodified", "super().__call__ at line %d" % call.lineno, ok3,
-               "the lookup result is %s" % ("returned as is" if ok3 else "not returned unmodified"), loc=index.loc(m, call))
-
-    # R6: truthiness of looked-up members
-    for var, node in direct:
-        for n in walk_no_nested(fn):
-            tests = []
-            if isinstance(n, (ast.If, ast.While, ast.IfExp)):
-                tests.append(n.test)
-            if isinstance(n, ast.BoolOp):
-                tests += n.values
-            for t in tests:
-                bare = t.operand if isinstance(t, ast.UnaryOp) and isinstance(t.op, ast.Not) else t
-                if isinstance(bare, ast.Name) and bare.id == var:
-                    rep.ob("C14.R6 member-not-tested-by-truthiness", "%s at line %d" % (ast.unparse(t), t.lineno), False,
-                           "`%s` holds a looked-up member; a member with ordinal 0 is falsy, so it is taken for missing" % var,
-                           loc=index.loc(m, t))
-        rep.count("direct member-table lookups")
-    if direct and not lookups:
-        # fallback construction lives outside a handler: analyse the whole function body for R4/R5
-        handler_bodies.append(fn.body)
-
-    # ---------------- the fallback object (R4) and effects (R5)
-    shared = {}
+    shared = set()
     for st in cls.body:
         tgt = None
         if isinstance(st, ast.Assign) and len(st.targets) == 1 and isinstance(st.targets[0], ast.Name):
@@ -177,143 +263,190 @@ def run(rep, index):
         elif isinstance(st, ast.AnnAssign) and isinstance(st.target, ast.Name) and st.value is not None:
             tgt, val = st.target.id, st.value
         if tgt and isinstance(val, (ast.Dict, ast.List, ast.Set, ast.Call)):
-            shared[tgt] = st
-    found_fallback = False
-    for body in handler_bodies:
-        news = {}
-        for st in ast.walk(ast.Module(body=body, type_ignores=[])):
-            if isinstance(st, ast.Assign) and len(st.targets) == 1 and isinstance(st.targets[0], ast.Name) and isinstance(st.value, ast.Call):
-                c = st.value
-                if isinstance(c.func, ast.Attribute) and c.func.attr == "__new__":
-                    news[st.targets[0].id] = (ast.unparse(c.func.value), [ast.unparse(a) for a in c.args], st)
-        if not news:
-            continue
-        found_fallback = True
-        for var, (base, args, st) in news.items():
-            inst = "fallback object `%s` (line %d)" % (var, st.lineno)
-            rep.ob("C14.R4 fallback-is-int.__new__(cls, value)", inst, base == "int" and args == [cls_p, value_p],
-                   "%s.__new__(%s)" % (base, ", ".join(args)), loc=index.loc(m, st))
-            name_set = val_set = None
-            for s2 in ast.walk(ast.Module(body=body, type_ignores=[])):
-                if isinstance(s2, ast.Assign) and len(s2.targets) == 1 and isinstance(s2.targets[0], ast.Attribute) \
-                        and isinstance(s2.targets[0].value, ast.Name) and s2.targets[0].value.id == var:
-                    if s2.targets[0].attr == "_name_":
-                        name_set = s2.value
-                    elif s2.targets[0].attr == "_value_":
-                        val_set = s2.value
-            ok_name = False
-            if isinstance(name_set, ast.JoinedStr):
-                lits = "".join(v.value for v in name_set.values if isinstance(v, ast.Constant))
-                fmts = [ast.unparse(v.value) for v in name_set.values if isinstance(v, ast.FormattedValue)]
-                ok_name = lits == "Unrecognized()" and fmts in (["int(%s)" % value_p], [value_p])
-            rep.ob("C14.R4 fallback-named-Unrecognized(n)", inst, ok_name,
-                   "_name_ = %s" % (ast.unparse(name_set) if name_set is not None else "<never set>"), loc=index.loc(m, st))
-            rep.ob("C14.R4 fallback-keeps-the-value", inst, isinstance(val_set, ast.Name) and val_set.id == value_p,
-                   "_value_ = %s" % (ast.unparse(val_set) if val_set is not None else "<never set>"), loc=index.loc(m, st))
-            rets = [n for n in ast.walk(ast.Module(body=body, type_ignores=[])) if isinstance(n, ast.Return)]
-            ok_ret = bool(rets) and all(isinstance(r.value, ast.Name) and (r.value.id == var or (direct and r.value.id in [d[0] for d in direct])) or is_super_call(r.value)
-                                        for r in rets if r.value is not None and not _under_names_guard(fn, r))
-            rep.ob("C14.R4 fallback-is-what-is-returned", inst, ok_ret,
-                   "return statements: %s" % [ast.unparse(r) for r in rets], loc=index.loc(m, st))
-    rep.ob("C14.R4 fallback-exists", CLS + ".__call__", found_fallback, "an int.__new__ fallback object is built" if found_fallback else "no fallback object is built", loc=loc)
+            shared.add(tgt)
 
-    # R5 effects through cls anywhere in the method
-    aliases = {cls_p}
-    changed = True
-    while changed:
-        changed = False
-        for n in walk_no_nested(fn):
-            if isinstance(n, ast.Assign) and len(n.targets) == 1 and isinstance(n.targets[0], ast.Name) and rooted_at(n.value, aliases) \
-                    and not isinstance(n.value, ast.Name) and n.targets[0].id not in aliases:
-                aliases.add(n.targets[0].id)
-                changed = True
-    n_eff = 0
-    for n in walk_no_nested(fn):
-        target = None
-        how = None
-        key = None
-        if isinstance(n, (ast.Attribute, ast.Subscript)) and isinstance(n.ctx, (ast.Store, ast.Del)) and rooted_at(n, aliases) \
-                and not (isinstance(n, ast.Attribute) and isinstance(n.value, ast.Name) and n.value.id not in aliases):
-            target, how = n, "store"
-            key = n.slice if isinstance(n, ast.Subscript) else None
-        elif isinstance(n, ast.Call) and isinstance(n.func, ast.Attribute) and n.func.attr in MUTATORS and rooted_at(n.func.value, aliases):
-            target, how = n.func.value, n.func.attr
-            key = n.args[0] if n.args else None
-        if target is None:
-            continue
-        # which attribute of cls is being written?
-        chain = []
-        e = target
-        while isinstance(e, (ast.Attribute, ast.Subscript)):
-            if isinstance(e, ast.Attribute):
-                chain.append(e.attr)
-            e = e.value
-        root_attr = chain[-1] if chain else None
-        if isinstance(e, ast.Name) and e.id != cls_p:
-            # an alias: find what it aliases
-            for a in walk_no_nested(fn):
-                if isinstance(a, ast.Assign) and isinstance(a.targets[0], ast.Name) and a.targets[0].id == e.id and isinstance(a.value, ast.Attribute):
-                    root_attr = a.value.attr
-        n_eff += 1
-        where = index.loc(m, n)
-        if root_attr in MEMBER_TABLES:
-            rep.ob("C14.R5 member-tables-not-written", "%s via %s at line %d" % (root_attr, how, n.lineno), False,
-                   "constructing from an integer writes the enum's member table %s" % root_attr, loc=where)
-        elif root_attr in shared:
-            keyed_by_cls = key is not None and any(isinstance(x, ast.Name) and x.id == cls_p for x in ast.walk(key))
-            rep.ob("C14.R5 no-cache-across-enum-types", "%s via %s at line %d" % (root_attr, how, n.lineno), keyed_by_cls,
-                   "%s is defined once on the metaclass (shared by every protocol enum) and is keyed by %s"
-                   % (root_attr, ast.unparse(key) if key is not None else "<nothing>"), loc=where)
-        elif isinstance(n, ast.Attribute) and isinstance(n.ctx, ast.Store) and isinstance(n.value, ast.Name) and n.value.id == cls_p:
-            rep.ob("C14.R5 member-tables-not-written", "cls.%s at line %d" % (n.attr, n.lineno), n.attr not in MEMBER_TABLES,
-                   "attribute %s set on the enum class" % n.attr, loc=where)
-        else:
-            raise AnalysisError("ProtocolEnumMeta.__call__ keeps state on the enum class through an idiom this rule does not "
-                                "know (%s at line %d)" % (ast.unparse(n)[:60], n.lineno))
-    rep.count("effects through cls", n_eff)
-    rep.ob("C14.R5 effects-inventory", CLS + ".__call__", True, "%d write(s) through the class object examined" % n_eff, loc=loc)
+    path_, pos, kwonly, defaults, has_var = stdlib_enum_call_signature()
+    accepted = set(pos) | set(kwonly)
+    names_default = defaults.get("names")
+    sentinel = names_default is not None and not (isinstance(names_default, ast.Constant) and names_default.value is None)
+
+    def task(with_names):
+        w = World(shared)
+        c = EnumCls(w)
+        w.value = B.fresh("value", None, None)
+
+        def lookup(ev, a, kw, n):
+            w.lookups.append((list(a), dict(kw), getattr(n, "lineno", 0)))
+            passes_names = "names" in kw or len(a) >= 2
+            names_val = kw.get("names") if "names" in kw else (a[1] if len(a) >= 2 else None)
+            if passes_names and names_val is not None:
+                return FunctionalTok()
+            first = a[0] if a else kw.get("value")
+            if not w.is_value(first):
+                w.effects.append(("lookup-of-something-else", repr(first), getattr(n, "lineno", 0)))
+            if w.is_declared():
+                return MemberTok(w)
+            raise PyRaise("ValueError", n)
+
+        def int_new(ev, a, kw, n):
+            return Fallback(w, a[0] if a else None, a[1] if len(a) > 1 else None, getattr(n, "lineno", 0))
+
+        ev = NumEval(index, natives={"int.__new__": int_new})
+        ev.keep_fstrings = True
+
+        def super_hook(fr, attr, node):
+            if attr != "__call__":
+                raise AnalysisError("C14: super().%s in ProtocolEnumMeta" % attr)
+            return Native(lookup, "EnumType.__call__")
+        ev.super_hook = super_hook
+        args = [c, w.value] + ([NamesTok()] if with_names else [])
+        res = ev.call(FuncRef(m, fn, ClassRef(m, cls)), args, {})
+        return w, c, res
+
+    n_paths = 0
+    n_lookup_sites = set()
+    for with_names in (False, True):
+        paths = B.explore(lambda wn=with_names: task(wn))
+        for p, st, val in paths:
+            n_paths += 1
+            B.set_path(p)
+            inst = "%s.__call__(%s) path[%s]" % (CLS, "value, names" if with_names else "value", _fmt(p))
+            if st != "ok":
+                if with_names:
+                    continue  # the functional API's failures are the stdlib's business
+                declared = dict(p.log).get("value is a declared ordinal")
+                rep.ob("C14.R1 lookup-delegated-and-guarded", inst, False,
+                       "raises %s for %s ordinal" % (val.exc_name, "a declared" if declared else "an undeclared"), loc=loc)
+                continue
+            w, c, res = val
+            for a, kw, ln in w.lookups:
+                n_lookup_sites.add(ln)
+                unknown = [k for k in kw if k not in accepted]
+                rep.ob("C14.R2 call-binds-against-EnumType.__call__", "super().__call__ at line %d" % ln, not unknown and (len(a) <= len(pos) or has_var),
+                       "keywords %s; %s accepts %s" % (sorted(kw), os.path.basename(path_), sorted(accepted)), loc=loc)
+                passes_names = "names" in kw or len(a) >= 2
+                names_val = kw.get("names") if "names" in kw else (a[1] if len(a) >= 2 else None)
+                if not (passes_names and names_val is not None):
+                    rep.ob("C14.R2 lookup-does-not-occupy-names", "super().__call__ at line %d" % ln, not (passes_names and sentinel),
+                           "passes names: %s; interpreter default for names: %s"
+                           % (passes_names, ast.unparse(names_default) if names_default is not None else "<required>"), loc=loc)
+            for kind, detail, ln in w.effects:
+                if kind == "member-table-write":
+                    rep.ob("C14.R5 member-tables-not-written", "%s at line %d" % (detail, ln), False,
+                           "constructing from an integer writes the enum's member table", loc=loc)
+                elif kind == "cls-attr-store":
+                    rep.ob("C14.R5 member-tables-not-written", "cls.%s at line %d" % (detail, ln), detail not in MEMBER_TABLES,
+                           "attribute %s set on the enum class" % detail, loc=loc)
+                elif kind == "shared-store":
+                    name, how, key, v = detail
+                    by_cls = _mentions(key, c)
+                    rep.ob("C14.R5 no-cache-across-enum-types", "%s via %s at line %d" % (name, how, ln), by_cls,
+                           "%s is defined once on the metaclass (shared by every protocol enum) and is keyed by %s"
+                           % (name, "a key containing the class" if by_cls else "a key without the class"), loc=loc)
+                    good_v = isinstance(v, Fallback) and v.c is c and w.is_value(v.v) and _mentions_value(w, key)
+                    rep.ob("C14.R5 cache-holds-the-fallback-for-its-key", "%s via %s at line %d" % (name, how, ln), good_v,
+                           "stored object: %r under a key %s the value" % (v, "containing" if _mentions_value(w, key) else "without"), loc=loc)
+                elif kind == "lookup-of-something-else":
+                    rep.ob("C14.R1 lookup-uses-the-value", "super().__call__ at line %d" % ln, False, "first argument: %s" % detail, loc=loc)
+            for ln, r in w.truth_tests:
+                rep.ob("C14.R6 member-not-tested-by-truthiness", "test at line %d" % ln, False,
+                       "a looked-up member is tested by truthiness; a member with ordinal 0 is falsy, so it is taken for missing", loc=loc)
+            if with_names:
+                continue
+            if w.declared is None:
+                rep.ob("C14.R1 lookup-delegated-and-guarded", inst, False, "returns %r without looking the value up" % (res,), loc=loc)
+                continue
+            if w.declared:
+                rep.ob("C14.R3 declared-member-returned-unmodified", inst, isinstance(res, MemberTok),
+                       "a declared ordinal returns %r" % (res,), loc=loc)
+                continue
+            # undeclared: the fallback object
+            if isinstance(res, CachedTok):
+                ok = _mentions(res.key, c) and _mentions_value(w, res.key)
+                rep.ob("C14.R4 fallback-exists", inst, ok, "returns the object cached in %s under a key %s the class and %s the value"
+                       % (res.table, "with" if _mentions(res.key, c) else "WITHOUT", "with" if _mentions_value(w, res.key) else "WITHOUT"), loc=loc)
+                continue
+            if not isinstance(res, Fallback):
+                rep.ob("C14.R4 fallback-exists", inst, False, "an undeclared ordinal returns %r" % (res,), loc=loc)
+                continue
+            rep.ob("C14.R4 fallback-exists", inst, True, "an int.__new__ object built at line %d is returned" % res.lineno, loc=loc)
+            rep.ob("C14.R4 fallback-is-int.__new__(cls, value)", inst, res.c is c and w.is_value(res.v), "int.__new__(%r, %r)" % (res.c, res.v), loc=loc)
+            nm = res.attrs.get("_name_")
+            ok_name = False
+            if isinstance(nm, FStr):
+                lits = "".join(x for k, x in nm.parts if k == "text")
+                vals = [x for k, x in nm.parts if k == "value"]
+                ok_name = lits == "Unrecognized()" and len(vals) == 1 and w.is_value(vals[0]) \
+                    and [k for k, _ in nm.parts] == ["text", "value", "text"]
+            rep.ob("C14.R4 fallback-named-Unrecognized(n)", inst, ok_name, "_name_ = %s" % (_show(nm),), loc=loc)
+            rep.ob("C14.R4 fallback-keeps-the-value", inst, w.is_value(res.attrs.get("_value_")), "_value_ = %s" % (_show(res.attrs.get("_value_")),), loc=loc)
+    rep.count("interpreted paths", n_paths)
+    rep.count("super().__call__ sites", len(n_lookup_sites))
+    rep.floor("interpreted paths", 3)
     rep.undecided.append("EnumType.__call__ raises ValueError for unknown values and returns the singleton member for declared ones; "
                          "the int-derived fallback compares/hashes as its integer: stdlib semantics, trusted")
-    rep.trusted.append("enum.py of the running interpreter (%s)" % path)
+    rep.trusted.append("enum.py of the running interpreter (%s)" % path_)
     generated_enums(rep, index)
 
 
-def _under_names_guard(fn, ret):
-    for n in walk_no_nested(fn):
-        if isinstance(n, ast.If) and "names" in ast.unparse(n.test) and any(ret is x for st in n.body for x in ast.walk(st)):
-            return True
-    return False
+class NamesTok:
+    """A `names` argument that is not None (functional API)."""
+
+    def truth(self, fr, node):
+        return True
+
+    def __repr__(self):
+        return "<names>"
 
 
-def direct_table_lookups(fn, cls_p):
-    """x = cls._value2member_map_.get(value) / cls._value2member_map_[value] style lookups: [(var, node)]."""
-    out = []
-    for n in walk_no_nested(fn):
-        if isinstance(n, ast.Assign) and len(n.targets) == 1 and isinstance(n.targets[0], ast.Name):
-            v = n.value
-            src = ast.unparse(v)
-            if "_value2member_map_" in src or "_member_map_" in src:
-                out.append((n.targets[0].id, n))
-    return out
+def _show(v):
+    if isinstance(v, FStr):
+        return "f'" + "".join(x if k == "text" else "{%r}" % (x,) for k, x in v.parts) + "'"
+    return repr(v) if v is not None else "<never set>"
+
+
+def _fmt(p):
+    return ",".join("%s=%s" % (k, "T" if v else "F") for k, v in p.log) or "-"
 
 
 def generated_enums(rep, index):
-    """Generated enums are `class X(IntEnum, metaclass=ProtocolEnumMeta)` with one `name = ordinal` per value
-    (structural check of the emitter; the emitted text itself is analysed by the engine-C checks)."""
-    m, fn, cls = index.function("protocol_code_generator.generate.code_generator.ProtocolCodeGenerator._generate_enum")
-    heads = []
-    for n in ast.walk(fn):
-        if isinstance(n, ast.JoinedStr):
-            lits = "".join(v.value for v in n.values if isinstance(v, ast.Constant))
-            if lits.startswith("class "):
-                heads.append((lits, n))
-    ok = any("(IntEnum, metaclass=ProtocolEnumMeta):" in h for h, _ in heads)
-    rep.count("enum class headers emitted", len(heads))
-    rep.ob("C14.G1 generated-enums-use-the-metaclass", "_generate_enum class header", ok and len(heads) == 1,
-           "emitted header template(s): %s" % [h for h, _ in heads], loc=index.loc(m, fn))
-    imports = [ast.unparse(c) for c in ast.walk(fn) if isinstance(c, ast.Call) and isinstance(c.func, ast.Attribute) and c.func.attr == "add_import"]
-    need = {"IntEnum": "enum", "ProtocolEnumMeta": "eolib.protocol.protocol_enum_meta"}
-    for name, mod in need.items():
-        hit = any(("'%s'" % name in s or '"%s"' % name in s) and (("'%s'" % mod) in s or ('"%s"' % mod) in s) for s in imports)
-        rep.ob("C14.G2 generated-enums-import-what-they-use", "import of %s" % name, hit, "add_import calls: %s" % imports, loc=index.loc(m, fn))
-    rep.floor("enum class headers emitted", 1)
+    """Generated enums are `class X(IntEnum, metaclass=ProtocolEnumMeta)`, importing both names: read off the files the
+    abstractly executed generator writes for a tree with enums in every directory."""
+    from ..genabs.driver import Session, run_program
+    from .c18 import program_tree
+    outs = run_program(Session(index), program_tree, runs=1)
+    n_enum = n_files = 0
+    for o in outs:
+        if o.rejected:
+            raise AnalysisError("C14: the generator rejects the reference tree (%s at %s)" % (o.exc, o.exc_site))
+        for f in o.value[0].files:
+            try:
+                tree = ast.parse(f["content"])
+            except SyntaxError:
+                continue  # C18.Q1's business
+            n_files += 1
+            imports = {}
+            for st in tree.body:
+                if isinstance(st, ast.ImportFrom):
+                    for a in st.names:
+                        imports[a.asname or a.name] = (st.level, st.module)
+            for cdef in tree.body:
+                if not isinstance(cdef, ast.ClassDef):
+                    continue
+                bases = [ast.unparse(b) for b in cdef.bases]
+                if not any(b in ("IntEnum", "enum.IntEnum", "Enum", "IntFlag") for b in bases):
+                    continue
+                n_enum += 1
+                meta = [ast.unparse(k.value) for k in cdef.keywords if k.arg == "metaclass"]
+                inst = "generated enum in %s path[%s]" % (f["path"], o.path())
+                rep.ob("C14.G1 generated-enums-use-the-metaclass", inst, bases == ["IntEnum"] and meta == ["ProtocolEnumMeta"],
+                       "class %s(%s%s)" % (cdef.name, ", ".join(bases), "".join(", metaclass=%s" % x for x in meta)))
+                imp_enum = imports.get("IntEnum")
+                imp_meta = imports.get("ProtocolEnumMeta")
+                rep.ob("C14.G2 generated-enums-import-what-they-use", inst + " IntEnum", imp_enum == (0, "enum"), "IntEnum imported from %r" % (imp_enum,))
+                rep.ob("C14.G2 generated-enums-import-what-they-use", inst + " ProtocolEnumMeta",
+                       imp_meta is not None and (imp_meta[1] or "").split(".")[-1] == "protocol_enum_meta",
+                       "ProtocolEnumMeta imported from %r" % (imp_meta,))
+    rep.count("generated files parsed", n_files)
+    rep.count("enum classes emitted", n_enum)
+    rep.floor("enum classes emitted", 9)
